@@ -14,7 +14,7 @@ EXTENDS MC_Heap
 CONSTANTS Impl, ScriptMode, ImplVersion
 Scripts == IF ScriptMode = "pds3" THEN { <<"PDS3">> }
            ELSE { <<e, e, e>> : e \in Encoders } \cup { <<e, "mutate", e>> : e \in Encoders }
-                \cup { <<"PDS3", e, "PDS3">> : e \in Encoders \ {"PDS3"} }
+                \cup { <<"PDS3", e, "PDS3">> : e \in Encoders \ {"PDS3"} } \cup { <<e, "other", e>> : e \in Encoders }
 VARIABLES script, done
 dvars == <<heap, phase, cp, mech, tree0, muts, script, done>>
 
@@ -46,7 +46,7 @@ DumpImplPDS3 ==
 DumpStep ==
    /\ done < Len(script) /\ script[done + 1] # "mutate"
    /\ phase' = "dumping" /\ done' = done + 1
-   /\ IF Impl /\ script[done + 1] = "PDS3" THEN DumpImplPDS3 ELSE heap' = heap
+   /\ IF Impl /\ script[done + 1] \in {"PDS3", "DEFAULT"} THEN DumpImplPDS3 ELSE heap' = heap
    /\ UNCHANGED <<cp, mech, tree0, muts, script>>
 MutStep ==
    /\ done < Len(script) /\ script[done + 1] = "mutate"
@@ -58,8 +58,8 @@ DNext == \/ Build /\ done = 0 /\ UNCHANGED <<script, done>>
 DSpec == DInit /\ [][DNext]_dvars
 
 (* a dump never adds, removes, reorders or alters items; PDS3 may relabel groups as objects *)
-DumpPure == [][ (done' = done + 1 /\ script[done + 1] # "mutate") =>
+DumpPure == [][ (done' = done + 1 /\ script[done + 1] \notin {"mutate", "other"}) =>
                  DumpAllowed(script[done + 1], Proj(heap, root), Proj(heap', root)) ]_dvars
-EmitDump == (Emit /\ done = 1 /\ script[1] # "mutate") =>
+EmitDump == (Emit /\ done = 1 /\ script[1] \notin {"mutate", "other"}) =>
               PrintT(ToJson([tree |-> Proj(heap, root), script |-> script]))
 =============================================================================
